@@ -8,7 +8,7 @@ from hypothesis import strategies as st
 
 from .. import build, gen, isolate, refsem
 from ..runner import Outcome, SubCheck
-from .c01 import reference_values
+from .c01 import reference_values, tol as ev_tol
 from .c02 import _full_point
 
 PROPERTY = 'C04'
@@ -131,7 +131,9 @@ def judge(case) -> Outcome:
     rows = build.table_rows(case['table'])
     n = len(rows)
     try:
-        l_ref = [ev.v for ev in reference_values(case, root, betas=point)]
+        l_evs = reference_values(case, root, betas=point)
+        l_ref = [ev.v for ev in l_evs]
+        l_tol = [ev_tol(ev) for ev in l_evs]
         if case['weight'] is None:
             w_ref = [1.0] * n
         else:
@@ -167,7 +169,7 @@ def judge(case) -> Outcome:
         out.fail('simulate:rows', f'simulate returned {len(sim_l)} rows for {n} observations')
         return out
     for i in range(n):
-        if not abs(sim_l[i] - l_ref[i]) <= 1e-9 * (1 + abs(l_ref[i])) or not abs(sim_w[i] - w_ref[i]) <= 1e-12 * (1 + abs(w_ref[i])):
+        if not abs(sim_l[i] - l_ref[i]) <= l_tol[i] + 1e-9 * (1 + abs(l_ref[i])) or not abs(sim_w[i] - w_ref[i]) <= 1e-12 * (1 + abs(w_ref[i])):
             out.fail('simulate:value', f'row {i}: simulate gives (l, w) = ({sim_l[i]!r}, {sim_w[i]!r}), reference ({l_ref[i]!r}, {w_ref[i]!r})')
             return out
     total_sim = sum(w * l for w, l in zip(sim_w, sim_l))
@@ -183,6 +185,9 @@ def judge(case) -> Outcome:
     gs = 1e-9 * (1 + np.abs(w[:, None] * g_n).sum())
     hs = 1e-9 * (1 + np.abs(w[:, None, None] * h_n).sum())
     bs = 1e-9 * (1 + sum(abs(w[i]) * float(np.abs(np.outer(g_n[i], g_n[i])).max()) for i in range(n)))
+    if not (np.all(np.isfinite(G)) and np.all(np.isfinite(H)) and np.all(np.isfinite(B))):
+        out.skipped = 'ill-posed: per-observation derivatives overflow'
+        return out
 
     def close(a, b_, t):
         a = np.asarray(a, dtype=float)
@@ -195,7 +200,7 @@ def judge(case) -> Outcome:
             if not abs(r['like'] - total_sim) <= tol:
                 out.fail(f'likelihood:{tag}', f'calculate_likelihood = {r["like"]!r} but sum_n w_n l_n from simulate = {total_sim!r}' + where)
                 return out
-            if not abs(r['like'] - total_ref) <= 1e-9 * scale:
+            if not abs(r['like'] - total_ref) <= 1e-9 * scale + sum(abs(w_) * t_ for w_, t_ in zip(w_ref, l_tol)):
                 out.fail(f'likelihood_vs_reference:{tag}', f'calculate_likelihood = {r["like"]!r}, reference {total_ref!r}' + where)
                 return out
             if not abs(r['scaled'] - r['like'] / o['sample_size']) <= tol:
